@@ -115,7 +115,7 @@ def run_xlate():
     facts_path = os.path.join(BUILD, "facts.json")
     if os.path.exists(facts_path):
         os.remove(facts_path)
-    rc, out = sh([XLATE_BIN, "-repo", REPO, "-out", tmp, "-facts", facts_path], env=go_env())
+    rc, out = sh([XLATE_BIN, "-repo", REPO, "-out", tmp, "-facts", facts_path], env=go_env(), cwd=REPO)
     facts = {}
     if os.path.exists(facts_path):
         facts = json.load(open(facts_path))
